@@ -71,7 +71,7 @@ theorem finally_completion_overrides (i : Nat) (b c f : Stmt) (hasC : Bool) (env
     (h : (exec env ls (.tryS i b hasC c false .skip)).1 ≠ .fatal) :
     (exec env ls (.tryS i b hasC c true f)).1 =
       (if (exec env [] f).1.isNormal then (exec env ls (.tryS i b hasC c false .skip)).1
-       else (exec env [] f).1) := by
+       else (exec env [] f).1.updateEmpty 0) := by
   simp only [exec, tryRes, if_true, Bool.false_eq_true, if_false] at h ⊢
   have h' : (catchPart i (exec env [] b) hasC fun _ => exec env [] c).1 ≠ .fatal := by
     intro hh; exact h ((updateEmpty_fatal_iff _ 0).2 hh)
@@ -113,14 +113,12 @@ theorem try_split (i : Nat) (b c f : Stmt) (env : Nat) (ls : List Label) :
       exec env ls (.tryS i (.tryS i b true c false .skip) false .skip true f) := by
   simp only [exec, tryRes, if_true, Bool.false_eq_true, if_false]
   generalize catchPart i (exec env [] b) true (fun _ => exec env [] c) = cp
+  generalize exec env [] f = rf
   obtain ⟨cc, l⟩ := cp
-  cases cc with
-  | normal v => cases v <;> simp [catchPart, finPart, updateEmpty]
-  | brk lb v => cases v <;> simp [catchPart, finPart, updateEmpty]
-  | cont lb v => cases v <;> simp [catchPart, finPart, updateEmpty]
-  | ret v => simp [catchPart, finPart, updateEmpty]
-  | thr v => simp [catchPart, finPart, updateEmpty]
-  | fatal => simp [catchPart, finPart, updateEmpty]
+  obtain ⟨cf, lf⟩ := rf
+  rcases cc with (_|v)|⟨lb,(_|v)⟩|⟨lb,(_|v)⟩|v|v|_ <;>
+    rcases cf with (_|w)|⟨lc,(_|w)⟩|⟨lc,(_|w)⟩|w|w|_ <;>
+    simp [catchPart, finPart, updateEmpty]
 
 /-! ### non-vacuity (tests on literals, not proofs of the property) -/
 
